@@ -3,7 +3,6 @@
 package iam
 
 import (
-	"net/url"
 	"time"
 
 	ssi "github.com/nuts-foundation/go-did"
@@ -60,16 +59,22 @@ type hC05Engine struct {
 
 func (e hC05Engine) GetSessionDatabase() storage.SessionDatabase { return e.db }
 
-// H05b: the same service-to-service presentation (same nonce) offered by n concurrent token requests: the
-// real validateS2SPresentationNonce lets at most one of them pass, under every schedule of the store
-// operations (and exactly one when nothing else is wrong); a sequential replay afterwards is refused.
+// H05b: the same service-to-service presentation (same nonce) offered by n concurrent, otherwise valid token
+// requests through the real handleS2SAccessTokenRequest: at most one of them is answered with an access token,
+// under every schedule of the store operations (and exactly one when nothing else is wrong); a sequential replay
+// afterwards is refused - also under another client_id (an unauthenticated form parameter).
 func H05b() {
 	hC02Clock = time.Unix(1700000000, 0)
-	publicURL, _ := url.Parse("https://n")
-	r := Wrapper{storageEngine: hC05Engine{db: hC05DB{newHC02DB()}}, auth: hC02Auth{publicURL: publicURL}}
+	hC02SigVerdict = nil
+	r := hC02OfferWrapper(hC05DB{newHC02DB()})
 	var p proof.LDProof
 	nonce := "x"
 	p.Nonce = &nonce
+	dom := hC02OfferDomain
+	p.Domain = &dom
+	p.Created = hC02Clock
+	exp := hC02Clock.Add(4 * time.Second)
+	p.Expires = &exp
 	p.VerificationMethod = ssi.MustParseURI("did:web:a#k")
 	vp := hC02LdVP(p)
 
@@ -78,7 +83,7 @@ func H05b() {
 	for i := 0; i < n; i++ {
 		i := i
 		vGo(func() {
-			if r.validateS2SPresentationNonce(vp) == nil {
+			if hC02Offer(r, vp, "c"+string(rune('0'+i))) {
 				ok[i] = true
 			}
 		})
@@ -93,21 +98,27 @@ func H05b() {
 	vClass("s2s nonce Get||Get before Put")
 	vAssert(successes <= 1, "H05b.nonce_at_most_once: two concurrent requests presenting the same nonce were both accepted")
 	vAssert(successes >= 1, "H05b.nonce_at_least_once: a fresh nonce was refused for every request")
-	vAssert(r.validateS2SPresentationNonce(vp) != nil, "H05b.sequential_replay: a used nonce was accepted again")
+	vAssert(!hC02Offer(r, vp, "other"), "H05b.sequential_replay: a used nonce was accepted again")
 	vCover("done")
 }
 
 func H05b_twin() {
 	hC02Clock = time.Unix(1700000000, 0)
-	publicURL, _ := url.Parse("https://n")
-	r := Wrapper{storageEngine: hC05Engine{db: hC05DB{newHC02DB()}}, auth: hC02Auth{publicURL: publicURL}}
+	hC02SigVerdict = nil
+	r := hC02OfferWrapper(hC05DB{newHC02DB()})
 	var p proof.LDProof
 	nonce := "x"
 	p.Nonce = &nonce
+	dom := hC02OfferDomain
+	p.Domain = &dom
+	p.Created = hC02Clock
+	exp := hC02Clock.Add(4 * time.Second)
+	p.Expires = &exp
+	p.VerificationMethod = ssi.MustParseURI("did:web:a#k")
 	vp := hC02LdVP(p)
 	n := 0
 	vGo(func() {
-		if r.validateS2SPresentationNonce(vp) == nil {
+		if hC02Offer(r, vp, "c") {
 			n++
 		}
 	})
